@@ -111,8 +111,9 @@ def load_kernel(path):
 def user_kernel(r, tag, directory=None, name=None):
     """A small synthetic kernel written to a temporary file: Langmuir-like isotherms, one per pore width."""
     nw = r.randint(5, 9)
-    widths = sorted(round(r.uniform(0.5, 5.0), 2) for _ in range(nw))
-    widths = [w + 0.01 * i for i, w in enumerate(widths)]
+    wmax = r.choice([5.0, 5.0, 25.0, 120.0])  # (kernels reaching into the mesopores: widths of 10 nm and more, 100 nm and more)
+    widths = sorted(round(gen.log_uniform(r, 0.5, wmax), 2) for _ in range(nw))
+    widths = [round(w + 0.01 * i, 2) for i, w in enumerate(widths)]
     P = numpy.exp(numpy.linspace(math.log(1e-6), math.log(0.95), 60))
     d = directory or os.path.join(_TMP, "k-%s" % tag)
     os.makedirs(d, exist_ok=True)
